@@ -187,6 +187,17 @@ def _check_instant(ms_total, ctx, other_types=True):
                 "got_fields": rf}
     if f[6] == 0 and not (r == t):
         return {"what": "round-tripped whole-second timestamp does not compare equal", "input_fields": f}
+    # a timestamp obtained from seconds against one BUILT from the very same calendar fields: the comparison operators,
+    # the difference and the seconds they denote must tell one story (they are the same instant)
+    twin = M.call(lambda: ObsTime(*[int(v) for v in rf]))
+    if not M.is_raised(twin):
+        ctx.monitor("derived_vs_built.one_story")
+        story = M.call(lambda: (r == twin, r < twin, r > twin, r != twin, r - twin, twin - r,
+                                r.toAbsTime() == twin.toAbsTime()))
+        if M.is_raised(story) or tuple(story) != (True, False, False, False, 0, 0, True):
+            return {"what": "a timestamp obtained from seconds and one built from the same fields do not behave as one "
+                            "instant under ==, <, >, !=, - and toAbsTime()", "fields": rf, "seconds_given": s,
+                    "got (==, <, >, !=, a-b, b-a, same toAbsTime)": story if not M.is_raised(story) else repr(story)}
     # the same number of seconds in the other numeric types a caller may hold it in (a Python int for whole seconds,
     # numpy scalars out of an array of epoch seconds) denotes the same instant; so do fields held as numpy integers
     if not other_types:
